@@ -31,16 +31,23 @@ ASSUMPTIONS = [
 ]
 PROBES = ("concurrent_overlap", "sequential_reuse", "body_raises", "suppressed", "cancel_in_body", "cancel_in_enter",
           "cancel_in_exit", "class_based", "generator_based", "decorated_method", "clashing_keyword_names", "falsy_exception",
-          "ambient_exception", "enter_failed", "stacked_managers", "one_function_two_managers", "manager_entered_directly")
+          "ambient_exception", "enter_failed", "stacked_managers", "one_function_two_managers", "manager_entered_directly", "recreate_hook", "call_does_not_bind")
 
 
 def gen(ch):
     sc = type("Scn", (), {})()
-    sc.kind = ch.weighted([4, 3, 1])  # 0 generator-based 1 class-based 2 class-based with __aexit__ only (inherited __aenter__)
+    # 0 generator-based 1 class-based 2 class-based with __aexit__ only (inherited __aenter__)
+    # 3 class-based with the documented _recreate_cm hook: every copy serves one call at a time
+    sc.kind = ch.weighted([4, 3, 1, 2])
+    # (kind 3) the copies test false | the hook gives the manager itself while that is idle and a copy while it is in use
+    sc.hook_falsy = ch.chance(1, 2)
+    sc.hook_self_when_idle = ch.chance(1, 2)
     sc.suppress = ch.chance(1, 3)
     sc.susp = [ch.draw(3) for _ in range(3)]  # enter, body, exit
     sc.ntasks = ch.between(1, 3)
-    sc.calls = [[ch.weighted([3, 1]) for _ in range(ch.between(1, 3))] for _ in range(sc.ntasks)]  # 0 return 1 raise
+    # 0 return | 1 raise | 2 the call does not bind to the function's parameters (a TypeError before the body starts:
+    # raised where the body would have run - inside the context)
+    sc.calls = [[ch.weighted([9, 3, 1]) for _ in range(ch.between(1, 3))] for _ in range(sc.ntasks)]
     sc.cancel = ch.draw(sc.ntasks) if ch.chance(1, 3) else None
     sc.interrupt = ch.draw(4)
     sc.backend = pick_backend(ch, 1, 5)
@@ -67,6 +74,8 @@ def gen(ch):
         sc.enter_fails = None
     # the decorating manager object is itself entered once, directly, by a further task after that many pauses
     sc.direct = ch.draw(4) if ch.chance(1, 5) else None
+    if sc.kind == 3:
+        sc.direct = None  # (a manager that serves one call at a time is not for the user to enter next to its calls)
     return sc
 
 
@@ -93,6 +102,7 @@ def execute(st, ctx):
     L = lib()
     log = []
     counter = [0]
+    problems = []
 
     async def pause(n, who):
         for _ in range(n):
@@ -158,10 +168,42 @@ def execute(st, ctx):
         if sc.kind == 2:
             # an exit-only context: entering is what the base class provides (it gives the manager itself)
             del Manager.__aenter__
+        if sc.kind == 3:
+            class Manager(Manager):  # noqa: F811
+                """Serves one call at a time; ``_recreate_cm`` is the documented way to get one per call"""
+
+                def __init__(self, label):
+                    self.label = label
+                    self.in_use = False
+
+                def _recreate_cm(self):
+                    if sc.hook_self_when_idle and not self.in_use:
+                        return self
+                    return type(self)(self.label)
+
+                if sc.hook_falsy:
+                    def __len__(self):
+                        return 0
+
+                async def __aenter__(self):
+                    if self.in_use:
+                        problems.append(("context_object", None, "a manager object that serves one call at a time was entered while in use"))
+                    self.in_use = True
+                    try:
+                        return await super().__aenter__()
+                    except BaseException:
+                        self.in_use = False
+                        raise
+
+                async def __aexit__(self, et, ev, tb):
+                    try:
+                        return await super().__aexit__(et, ev, tb)
+                    finally:
+                        self.in_use = False
+
         decorators = [Manager("m0"), Manager("m1")]
 
     raised = {}
-    problems = []
     fault_type = FalsyFault if sc.falsy_exc else InjectedFault
 
     async def body_impl(call_id, fails, extra):
@@ -236,7 +278,14 @@ def execute(st, ctx):
             call_id = (ti, n)
             log.append(("call", call_id, sim.current.id))
             try:
-                results[call_id] = ("ok", await bodies[sc.which[ti][n]](call_id, fails, **sc.extra))
+                if fails == 2:
+                    try:
+                        results[call_id] = ("ok", await bodies[sc.which[ti][n]](call_id, **sc.extra))
+                    except TypeError as err:
+                        results[call_id] = ("raised", err)
+                        raised[call_id] = err
+                else:
+                    results[call_id] = ("ok", await bodies[sc.which[ti][n]](call_id, fails, **sc.extra))
             except (InjectedFault, StopAsyncIteration, BodyBase) as err:
                 results[call_id] = ("raised", err)
             except EnterFailed as err:
@@ -275,7 +324,7 @@ def execute(st, ctx):
     if sc.cancel is not None:
         sim.cancel_plan[tasks[sc.cancel].id] = 1 + st.faults.draw(8)
     run_sim(sim)
-    sig = (("generator", "class", "class_exit_only")[sc.kind], "suppress" if sc.suppress else "propagate")
+    sig = (("generator", "class", "class_exit_only", "class_with_recreate_hook")[sc.kind], "suppress" if sc.suppress else "propagate")
 
     def describe():
         return {"backend": sc.backend, "manager": sig[0], "suppress": sc.suppress, "decorated": "method" if sc.as_method else "function",
@@ -326,6 +375,8 @@ def execute(st, ctx):
                     out.violate("C15.call_never_finished", sig, dict(describe(), call=call_id))
                     continue
                 n_entered = sum(1 for e in evs if e[0] == "entered") if sc.kind != 2 else (len(chain) if "body" in kinds else 0)
+                if sc.kind == 2 and sc.calls[call_id[0]][call_id[1]] == 2:
+                    n_entered = kinds.count("exit")  # no body event to go by: the (silent) enters are the exits seen
                 if cancelled:
                     # whatever was entered must have been exited, with the cancellation - and nothing else
                     if n_entered and kinds.count("exit") != n_entered:
@@ -340,8 +391,12 @@ def execute(st, ctx):
                     if steps != [("enter", chain[0])]:
                         out.violate("C15.exited_without_having_entered", sig + (",".join(kinds),), dict(describe(), call=call_id))
                     continue
+                fails = sc.calls[call_id[0]][call_id[1]]
                 expected = [("enter", l) for l in chain] if sc.kind != 2 else []
-                expected += [("body", None)] + [("exit", l) for l in reversed(chain)]
+                expected += ([("body", None)] if fails != 2 else []) + [("exit", l) for l in reversed(chain)]
+                if fails == 2 and len(chain) > 1:
+                    # stacked: the innermost wrapper is what fails to call the function; the contexts around it are entered
+                    pass
                 if steps != expected:
                     clause = "C15.not_enter_body_exit" if kinds != [k for k, _ in expected] else "C15.entered_other_context"
                     out.violate(clause, sig + (",".join(kinds),), dict(describe(), call=call_id, expected=repr(expected), got=repr(steps)))
@@ -355,9 +410,12 @@ def execute(st, ctx):
                         if enter[1] in used:
                             out.violate("C15.generator_shared_between_calls", sig, dict(describe(), call=call_id))
                         used[enter[1]] = call_id
-                fails = sc.calls[call_id[0]][call_id[1]]
                 if fails:
                     err = raised.get(call_id)
+                    if fails == 2 and err is None and sc.suppress:
+                        err = TypeError("(suppressed: the object itself is unknown)")
+                        if exits and exits[0][3] == "TypeError":
+                            exits = [exits[0][:4] + (id(err),) + exits[0][5:]] + exits[1:]
                     suppressed = sc.suppress and isinstance(err, Exception)  # the managers suppress Exception, nothing wider
                     for n, exit_ in enumerate(exits):
                         want = None if (suppressed and n > 0) else id(err)
@@ -399,6 +457,8 @@ def execute(st, ctx):
         if where in ("body", "enter", "exit"):
             out.probes["cancel_in_" + where] = 1
     out.probes["class_based" if sc.kind else "generator_based"] = 1
+    if sc.kind == 3:
+        out.probes["recreate_hook"] = 1
     if sc.ambient:
         out.probes["ambient_exception"] = 1
     if any(r[0] == "enter_failed" for r in results.values()):
@@ -408,6 +468,8 @@ def execute(st, ctx):
         out.probes["decorated_method"] = 1
     if sc.layout:
         out.probes[("stacked_managers", "one_function_two_managers")[sc.layout - 1]] = 1
+    if any(f == 2 for p in sc.calls for f in p):
+        out.probes["call_does_not_bind"] = 1
     if sc.direct is not None and "inside" in direct_log:
         out.probes["manager_entered_directly"] = 1
     if sc.extra:
@@ -415,7 +477,7 @@ def execute(st, ctx):
     if sc.falsy_exc and any(f for p in sc.calls for f in p):
         out.probes["falsy_exception"] = 1
     out.nontrivial = overlap or any(len(p) >= 2 for p in sc.calls)
-    out.shape = (sc.backend, sc.layout, sc.direct, sc.kind, sc.suppress, sc.ambient, sc.enter_fails, sc.as_method, tuple(sorted(sc.extra)), sc.falsy_exc, sc.exc_kind,
+    out.shape = (sc.backend, sc.layout, sc.direct, sc.kind, (sc.hook_falsy, sc.hook_self_when_idle) if sc.kind == 3 else None, sc.suppress, sc.ambient, sc.enter_fails, sc.as_method, tuple(sorted(sc.extra)), sc.falsy_exc, sc.exc_kind,
                  tuple(tuple(w) for w in sc.which), tuple(sc.susp), tuple(tuple(p) for p in sc.calls), sc.cancel, hash(tuple(sim.trace)))
     if ctx.want_sample:
         out.sample = describe()
